@@ -120,6 +120,20 @@ func LoadGlobal(repoDir string, overlay map[string][]byte) (*Global, error) {
 			}
 		}
 	}
+	// `//@ func lowerType.Method` was read as package-qualified; re-key it if that is what exists
+	for k, c := range g.contracts.Funcs {
+		if _, ok := g.funcs[k]; ok || c.Trusted || c.Interface {
+			continue
+		}
+		alt := c.PkgName + "." + k
+		if _, ok := g.funcs[alt]; ok {
+			if _, clash := g.contracts.Funcs[alt]; !clash {
+				delete(g.contracts.Funcs, k)
+				c.Key = alt
+				g.contracts.Funcs[alt] = c
+			}
+		}
+	}
 	tdir := os.Getenv("GOVC_TRUSTED_DIR")
 	if tdir == "" {
 		tdir = "/verif/contracts/trusted"
